@@ -210,3 +210,76 @@ func pullExclusive(t *testing.T, st *Stats) {
 	}
 	st.Set("concurrent_pull_max_boundaries", maxSteps)
 }
+
+// waitingPullDeadline: a Pull that is already waiting is handed a message as soon as its retry deadline
+// has passed — also when another outstanding message of the subscription is due much later.
+func waitingPullDeadline(t *testing.T, st *Stats) {
+	what := ""
+	synctest.Test(t, func(t *testing.T) {
+		w := NewWorld(t, Seed())
+		defer w.Close()
+		cfg := &SubCfg{Topic: "t", TTL: 24 * 3600 * Sec, MTTL: 3600 * Sec, MinB: Sec}
+		w.Exec(Op{K: "create_topic", Topic: "t"})
+		w.Exec(Op{K: "create_sub", Sub: "s", Cfg: cfg})
+		w.Exec(Op{K: "publish", Topic: "t", Msgs: []MsgSpec{{N: 0}}})
+		time.Sleep(time.Millisecond)
+		w.Exec(Op{K: "publish", Topic: "t", Msgs: []MsgSpec{{N: 1}}})
+		time.Sleep(time.Millisecond)
+		r := w.Exec(Op{K: "pull", Sub: "s", Max: 2})
+		if len(r.Delivered) != 2 {
+			t.Fatalf("setup: pull delivered %d", len(r.Delivered))
+		}
+		// the older message gets a long deadline; the younger one is due after its back-off (about 1.1 s + jitter)
+		w.Exec(Op{K: "delay", Refs: []Ref{{N: 0, Sub: "s"}}, D: 60 * Sec})
+		w.Dump()
+		var subID uuid.UUID
+		for _, row := range w.lastSubs {
+			subID = row.ID
+		}
+		var due time.Time
+		for _, d := range w.lastDels {
+			if d.ID == r.Delivered[1].ID {
+				due = d.AttemptAt
+			}
+		}
+		w.Ctl.mu.Lock()
+		w.Ctl.tick = 0
+		w.Ctl.mu.Unlock()
+		a := actions.NewGetSubscriptionMessages(actions.GetSubscriptionMessagesParams{ID: &subID, Name: SubName("s"), MaxMessages: 5, MaxBytes: 1 << 30, MaxWait: 30 * time.Second})
+		start := time.Now()
+		fin := make(chan error, 1)
+		go func() { fin <- a.ExecuteClient(context.Background(), w.Client) }()
+		synctest.Wait()
+		select {
+		case <-fin:
+			what = "setup: the waiting pull returned at once"
+			return
+		default:
+		}
+		time.Sleep(time.Until(due) + 200*time.Millisecond)
+		synctest.Wait()
+		select {
+		case err := <-fin:
+			res, ok := a.Results()
+			n := 0
+			if ok {
+				n = len(res.Deliveries)
+			}
+			if err != nil || n != 1 || res.Deliveries[0].ID != r.Delivered[1].ID {
+				what = fmt.Sprintf("a Pull waiting since %s returned %v / %d deliveries when the retry deadline of an outstanding message passed; expected exactly that message", time.Since(start), err, n)
+			}
+		default:
+			what = fmt.Sprintf("a Pull that has been waiting for %s was not handed the message whose retry deadline passed 200 ms ago (another outstanding message of the subscription is due in a minute)", time.Since(start))
+			time.Sleep(40 * time.Second) // let it run into its MaxWait
+			synctest.Wait()
+		}
+	})
+	st.Count("waiting_pull_cases", 1)
+	if what != "" {
+		p := ReplayPath(fmt.Sprintf("C04-waiting-pull-%d.json", Seed()))
+		b, _ := json.MarshalIndent(map[string]interface{}{"property": "C04", "sig": "waiting-pull-not-woken-at-deadline", "seed": Seed(), "what": what,
+			"history": []string{"subscription with minimum backoff 1 s", "publish A, publish B", "Pull (max 2): A and B, attempt 1", "ModifyAckDeadline(A, 60 s)", "Pull with a 30 s wait, started at once", "B's retry deadline passes"}}, "", " ")
+		os.WriteFile(p, b, 0o644)
+		st.Violate(Violation{What: "[waiting-pull-not-woken-at-deadline] " + what, Replay: p, FoundInput: true, Sig: "waiting-pull-not-woken-at-deadline"})
+	}
+}
